@@ -25,9 +25,10 @@ Definition old_addr (e : option i2c_fields) : option Z :=
 (* update(cb) followed by the device serving the reads.  Result: new state, number of read requests.
    - a pending earlier update makes update() do nothing at all;
    - otherwise valid is reset to False first, and only a completed read with matching checksum sets it;
-   - the five header fields overwrite the dictionary, 'radio_address' is only written by a version-1 read
-     (so a stale one survives a version-0 read);
-   - unknown version / failed read request: nothing more happens, the callback stays pending *)
+   - the five header fields overwrite the dictionary; 'radio_address' is written by a version-1 read, removed by
+     a version-0 read (F14e repaired) and left alone by an unknown version (valid is False then);
+   - unknown version: valid False, callback delivered (F14c repaired);
+   - failed read request (device error): nothing more happens, the callback stays pending *)
 Definition i2c_update (st : ist) (mem : list Z) : ist * Z :=
   if is_pending st then (st, 0) else
   match read mem 0 16 with
@@ -37,7 +38,8 @@ Definition i2c_update (st : ist) (mem : list Z) : ist * Z :=
       let h := i2c_hdr_fields d in
       let f := mk_i2c (i_version h) (i_channel h) (i_speed h) (i_pitch h) (i_roll h) (old_addr (is_elems st)) in
       if i_version h =? 0 then
-        (mk_ist (sum256 (firstn 15 d) =? nthz 15 d) false (Some f) (is_cbs st + 1), 1)
+        (* F14e repaired: a version-0 read removes 'radio_address' *)
+        (mk_ist (sum256 (firstn 15 d) =? nthz 15 d) false (Some h) (is_cbs st + 1), 1)
       else if i_version h =? 1 then
         match read mem 16 5 with
         | None => (mk_ist false true (Some f) (is_cbs st), 2)
@@ -48,7 +50,7 @@ Definition i2c_update (st : ist) (mem : list Z) : ist * Z :=
                   (Some (mk_i2c (i_version h) (i_channel h) (i_speed h) (i_pitch h) (i_roll h) (Some a)))
                   (is_cbs st + 1), 2)
         end
-      else (mk_ist false true (Some f) (is_cbs st), 1)
+      else (mk_ist false false (Some f) (is_cbs st + 1), 1)   (* F14c repaired: unknown version finishes the update *)
     else (mk_ist false false (is_elems st) (is_cbs st + 1), 1)
   end.
 
@@ -92,7 +94,7 @@ Record ost := mk_ost {
   os_valid : bool;
   os_pending : bool;
   os_hdr : option (Z * Z * Z);        (* pins, vid, pid: None until a header was parsed or assigned *)
-  os_elems : dict;                    (* never cleared by the library *)
+  os_elems : dict;                    (* replaced by every read whose area CRC matches (F14d repaired) *)
   os_cbs : Z }.
 
 Definition ost_init : ost := mk_ost false false None [] 0.
@@ -101,7 +103,8 @@ Definition ost_init : ost := mk_ost false false None [] 0.
 Definition ow_check_from (d0 : dict) (data : list Z) : bool * dict * option pyexc :=
   let body := removelast data in
   if crc8 body =? last data 0 then
-    let '(d, e) := ow_elems (length body) (skipn 2 body) d0 in
+    (* F14d repaired: a matching area CRC starts from an empty dictionary *)
+    let '(d, e) := ow_elems (length body) (skipn 2 body) [] in
     (match e with None => true | Some _ => false end, d, e)
   else (false, d0, None).
 
